@@ -2,14 +2,16 @@ import RlibModel.Model.Dsu
 /-!
 Line-protocol driver for engine `dsu` (property C05).
 
-A case is a history `n0 ; op ; op ; …` on `DSU::new(n0)` (plus a saved clone of it).  Ops:
+A case is a history `n0 [flags] ; op ; op ; …` on `DSU::new(n0)` (plus a saved clone of it); flags (`ss` = the harness
+runs the history in a child process with a 256 KiB stack) are ignored by the model.  Ops:
   `un u v` `par v` `check u v` `size v` `reset n` `clone` `swap` `dump`
 and macro ops that both sides expand to the same primitive calls (adversarial orders for large n):
   `chain a b` (un(i,i+1), i=a..b-2)   `chainr a b` (un(i+1,i))   `star c a b` (un(c,i))   `starr c a b` (un(i,c))
   `binom lo hi` (rounds pairing the *last* elements of equal blocks: the binomial-tree worst case, no compression)
   `rand seed cnt` (SplitMix64 pairs mod n)   `parall` `sizeall` `checkadj`.
 One result token per op, blank-separated; the first panic ends the history.
-  raw : un/check `t|f`, par/size number, reset/clone/swap `-`, dump `p=[..]/sz=[..]/depth=D` (hashes when n > 64),
+  raw : un/check `t|f`, par/size number, reset/clone/swap `-`, dump the constant `dump` (the private arrays are NOT compared:
+        the property observes return values and the forest depth; `dumpdiag` prints `p=[..]/sz=[..]/depth=D` for the logged diagnostic),
         union macros `<number of true>:<fnv64 of the answers>`, parall/sizeall/checkadj `#<fnv64>`.
   view: as raw, except par ↦ `r` (the representative is a member of the class and the same as the one reported for
         that class since its last real union; else `R!`), parall likewise, dump ↦ `depth-ok` (every vertex's depth is
@@ -289,7 +291,8 @@ def doOp (st : DState) (toks : List String) : Out :=
     | _ => .bad
   | ["clone"] => prim st .clone true (fun sys _ => .tok ⟨sys, st.spC, st.spC⟩ (tok1 "-"))
   | ["swap"] => prim st .swap true (fun sys _ => .tok ⟨sys, st.spS, st.spC⟩ (tok1 "-"))
-  | ["dump"] => .tok st (dumpTok st.sys.cur)
+  | ["dump"] => let t := dumpTok st.sys.cur; .tok st ⟨"dump", t.view, t.spec⟩
+  | ["dumpdiag"] => let t := dumpTok st.sys.cur; .tok st ⟨t.raw, "diag", "diag"⟩
   | ["parall"] =>
     match st with
     | ⟨⟨cur, saved⟩, spC, spS⟩ =>
@@ -383,7 +386,8 @@ def handle (line : String) : String :=
   match splitOps line with
   | [] => badLine line
   | hdr :: ops =>
-    match parseNat? hdr with
+    -- header: `n0` optionally followed by flags for the harness (`ss` = run on a small stack), which the model ignores
+    match (tokens hdr).head?.bind parseNat? with
     | none => "M INVALID | V INVALID | S any"
     | some n0 =>
       let st : DState := ⟨initSys n0, PSpec.new n0, PSpec.new n0⟩
